@@ -11,7 +11,7 @@ import pyref
 FAMILY = "cpc"
 CORR = "Cpc"               # Coq module DS.Corr.Cpc
 FAMNUM = 7
-ORACLES = {"prop_ok": 0}
+ORACLES = {"prop_ok": 0, "union_ok": 1}
 GEN_MODULES = [("GenCpc",
                 ["cpc/mod.rs", "cpc/sketch.rs", "cpc/pair_table.rs", "cpc/kxp_byte_lookup.rs", "common/inv_pow2_table.rs"],
                 ["MIN_LG_K", "MAX_LG_K", "KXP_BYTE_TABLE", "INVERSE_POWERS_OF_2",
@@ -20,9 +20,15 @@ GEN_MODULES = [("GenCpc",
                  "LIT_build_bit_matrix", "LIT_determine_flavor", "LIT_determine_correct_offset"],
                 {"cpc/mod.rs": ["determine_flavor", "determine_correct_offset"],
                  "cpc/sketch.rs": ["update", "row_col_update", "update_hip", "update_sparse", "promote_sparse_to_windowed",
-                                   "update_windowed", "move_window", "refresh_kxp", "build_bit_matrix"]})]
+                                   "update_windowed", "move_window", "refresh_kxp", "build_bit_matrix"]}),
+               ("GenCpcUnion", ["cpc/union.rs"],
+                ["LIT_to_sketch", "LIT_reduce_k", "LIT_or_window_into_matrix", "LIT_or_table_into_matrix",
+                 "LIT_or_matrix_into_matrix", "LIT_walk_table_updating_sketch"],
+                {"cpc/union.rs": ["to_sketch", "reduce_k", "or_window_into_matrix", "or_table_into_matrix",
+                                  "or_matrix_into_matrix", "walk_table_updating_sketch"]})]
 OPNAMES = {0: "new", 1: "update", 2: "row_col", 3: "dump", 4: "validate", 5: "matrix", 6: "flavor_of", 7: "offset_of",
-           8: "estimate"}
+           8: "estimate", 10: "sk_new", 11: "sk_rc", 12: "sk_item", 13: "sk_dump", 14: "sk_validate", 15: "sk_matrix",
+           16: "sk_roundtrip", 20: "un_new", 21: "un_update", 22: "un_state", 23: "un_result"}
 U32MAX = 2**32 - 1
 
 
@@ -285,7 +291,167 @@ def plan(tier):
     return p
 
 
+# ------------------------------------------------------------------------------------------------
+# C06: CpcUnion cases (focus="union")
+FLAVORS = ["empty", "sparse", "hybrid", "pinned", "sliding"]
+
+
+def flavor_target(rng, lgk, flavor):
+    """a coupon count inside the flavor's range (None if the range is empty at this lg_k)"""
+    k = 1 << lgk
+    lo = {"empty": 0, "sparse": 1, "hybrid": -(-3 * k // 32), "pinned": k // 2, "sliding": -(-27 * k // 8)}[flavor]
+    hi = {"empty": 0, "sparse": -(-3 * k // 32) - 1, "hybrid": k // 2 - 1, "pinned": -(-27 * k // 8) - 1,
+          "sliding": min(8 * k, 59 * k)}[flavor]
+    if hi < lo:
+        return None
+    r = rng.random()
+    if r < 0.25:
+        return lo
+    if r < 0.45:
+        return hi if flavor != "sliding" else rng.randint(lo, lo + k)
+    return rng.randint(lo, hi)
+
+
+class UBuilder:
+    """builds the op list of a union case; keeps exact matrices only to steer the streams (not an oracle)"""
+    def __init__(self, rng, seed):
+        self.rng, self.seed = rng, seed
+        self.ops = []
+        self.nslot = 0
+        self.sims = {}          # slot -> Sim
+        self.cost = 0
+
+    def sketch(self, lgk, flavor, style):
+        rng = self.rng
+        slot = self.nslot; self.nslot += 1
+        self.ops.append((10, [slot, lgk]))
+        sim = Sim(lgk); self.sims[slot] = sim
+        target = flavor_target(rng, lgk, flavor)
+        if target is None:
+            target = 1
+        k = 1 << lgk
+        guard = 0
+        while sim.c < target and guard < 40 * k + 100:
+            guard += 1
+            if style == "hashed":
+                item = rng.getrandbits(64) - 2**63
+                h1, h2, rc = pair_of_item(item, self.seed, lgk)
+                if not sim.ok(rc):
+                    continue
+                sim.add(rc); self.ops.append((12, [slot, item, h1, h2]))
+            else:
+                if style == "cols":        # few distinct columns, far right included: dense rows after folding
+                    col = rng.choice([0, 1, 2, 3, 9, 17, 40, 63])
+                else:
+                    col = geometric_col(rng, 0.08)
+                rc = (rng.randrange(k) << 6) | col
+                if not sim.ok(rc):
+                    continue
+                sim.add(rc); self.ops.append((11, [slot, rc]))
+            self.cost += 1 + (k // 4 if 32 * sim.c >= 3 * k else sim.c // 2)
+        return slot
+
+    def observe_sketch(self, slot, full=True):
+        self.ops.append((13, [slot]))
+        self.ops.append((14, [slot]))
+        if full:
+            self.ops.append((15, [slot]))
+
+
+def union_matrix(lg, mats):
+    """(lg_min, rows) of the OR of folded matrices; only for domain steering"""
+    live = [(l, m) for (l, m) in mats if any(m.values())]
+    lgm = min([lg] + [l for l, _ in live])
+    out = {}
+    for l, m in live:
+        for r, w in m.items():
+            out[r & ((1 << lgm) - 1)] = out.get(r & ((1 << lgm) - 1), 0) | w
+    return lgm, out
+
+
+def gen_union_case(rng, cid, tier, big):
+    seed = rng.choice([9001, 9001, 1, 12345, rng.getrandbits(64)])
+    if pyref.seed_hash(seed) == 0:
+        seed = 9001
+    b = UBuilder(rng, seed)
+    lo, hi = (4, 8) if not big else (9, 11)
+    lg_u = rng.choice([rng.randint(lo, hi), rng.randint(lo, hi + 1), 4, 12 if big else 8])
+    n_in = rng.choice([0, 1, 2, 2, 3, 3, 4, 5, 6])
+    inputs = []
+    for i in range(n_in):
+        lgk = rng.choice([lg_u, lg_u, rng.randint(lo, hi), max(4, lg_u - rng.randint(1, 3)), min(12, lg_u + rng.randint(1, 3))])
+        if big:
+            flavor = rng.choice(["empty", "sparse", "sparse", "hybrid", "pinned"])
+        else:
+            flavor = rng.choice(FLAVORS + ["sparse", "sliding"])
+        slot = b.sketch(lgk, flavor, rng.choice(["geo", "geo", "hashed", "cols"]))
+        if rng.random() < 0.35:
+            b.ops.append((16, [slot]))                 # deserialize(serialize(.))
+        if rng.random() < 0.3:
+            b.observe_sketch(slot, full=(lgk <= 8))
+        inputs.append(slot)
+    mats = [(b.sims[s].lgk, b.sims[s].rows) for s in inputs]
+
+    def in_domain(lg, ms):
+        lgm, rows = union_matrix(lg, ms)
+        c = sum(bin(w).count("1") for w in rows.values())
+        return 8 * c < 475 * (1 << lgm) and c <= 20 * (1 << lgm)
+
+    orders = [list(range(n_in))]
+    if n_in >= 2:
+        orders.append(list(reversed(range(n_in))))
+        o = list(range(n_in)); rng.shuffle(o); o = o + [rng.choice(o)]     # a repetition: idempotence
+        orders.append(o)
+    res_slot = b.nslot; b.nslot += 1
+    ucount = 0
+    for oi, order in enumerate(orders):
+        u = ucount; ucount += 1
+        b.ops.append((20, [u, lg_u]))
+        b.ops.append((23, [u, res_slot]))              # result of the empty union
+        fed = []
+        for i in order:
+            if not in_domain(lg_u, fed + [mats[i]]):
+                continue
+            fed.append(mats[i])
+            b.ops.append((21, [u, inputs[i]]))
+            if oi == 0 or rng.random() < 0.3:
+                b.ops.append((22, [u]))
+                b.ops.append((23, [u, res_slot]))      # to_sketch after every step
+                b.observe_sketch(res_slot, full=True)
+        b.ops.append((22, [u]))
+        b.ops.append((23, [u, res_slot]))
+        b.observe_sketch(res_slot, full=True)
+        if oi == 0 and rng.random() < 0.5 and fed:
+            # the result (possibly after a round trip) is itself an input of another union
+            keep = b.nslot; b.nslot += 1
+            b.ops.append((23, [u, keep]))
+            if rng.random() < 0.5:
+                b.ops.append((16, [keep]))
+            u2 = ucount; ucount += 1
+            lg2 = rng.choice([lg_u, max(4, lg_u - 1), min(12, lg_u + 2)])
+            b.ops.append((20, [u2, lg2]))
+            extra = b.sketch(rng.randint(lo, hi), rng.choice(["sparse", "hybrid", "pinned"]), "geo")
+            lgm, rows = union_matrix(lg_u, fed)
+            for src, mat in rng.sample([(keep, (lgm, rows)), (extra, (b.sims[extra].lgk, b.sims[extra].rows))], 2):
+                b.ops.append((21, [u2, src]))
+                b.ops.append((22, [u2]))
+                b.ops.append((23, [u2, res_slot]))
+                b.observe_sketch(res_slot, full=True)
+    return Case(cid, [lg_u, seed], b.ops, tag="cpcunion-lg%d-n%d" % (lg_u, n_in))
+
+
+def gen_union(rng, tier, n):
+    if n is None:
+        n = 60 if tier == "quick" else 500
+    out = []
+    for i in range(n):
+        out.append(gen_union_case(rng, i, tier, big=(i % 12 == 11)))
+    return out
+
+
 def gen(rng, tier, n=None, focus=None):
+    if focus == "union":
+        return gen_union(rng, tier, n)
     p = plan(tier)
     if n is not None and n < len(p):
         rng.shuffle(p)
@@ -297,6 +463,9 @@ def gen(rng, tier, n=None, focus=None):
 
 
 def nontrivial(case, obs):
-    """at least two distinct pairs were offered and the state was observed at least once"""
+    """C05: at least two distinct pairs were offered and the state was observed at least once;
+    C06: at least two union updates and one result were taken"""
+    if any(c == 20 for (c, a) in case.ops):
+        return sum(1 for (c, a) in case.ops if c == 21) >= 2 and any(c == 23 for (c, a) in case.ops)
     pairs = {tuple(a[-2:]) for (c, a) in case.ops if c in (1, 2)}
     return len(pairs) >= 2 and any(c in (3, 5) for (c, a) in case.ops)
